@@ -155,7 +155,7 @@ impl Prop for C06 {
     fn assumptions(&self) -> Vec<String> {
         vec![
             "whether an approval is still live after heartbeats/pruning is read from the node (only the existence of the approval, never amounts)".into(),
-            "when a hash is approved again after its earlier approval was pruned, the allowance is the sum of the approvals granted (sound upper bound)".into(),
+            "when a hash is approved again after its earlier approval was pruned, the allowance is the sum of the approvals granted, each with its own routing-fee allowance (sound upper bound)".into(),
             "the tolerated imbalance of an already-known uninvoiced routed payment (issue 331) is outside the oracle, including hashes whose approval (first, or a new one after the earlier approval expired and was pruned) arrives only after such HTLCs were accepted".into(),
         ]
     }
@@ -212,6 +212,8 @@ impl Prop for C06 {
         let payee = PublicKey::from_secret_key(&secp, &SecretKey::from_slice(&[5u8; 32]).unwrap());
         // approved amount in msat per hash (ledger)
         let mut approved: BTreeMap<u8, u128> = BTreeMap::new();
+        // number of approvals granted per hash: each approval comes with its own routing-fee allowance
+        let mut approvals_n: BTreeMap<u8, u128> = BTreeMap::new();
         let mut seen: BTreeSet<u8> = BTreeSet::new();
         // hashes first approved only after HTLCs for them had already been accepted while
         // uninvoiced (the tolerated issue-331 imbalance): outside the oracle
@@ -269,6 +271,7 @@ impl Prop for C06 {
                             st.class("approval_after_uninvoiced_htlc(excluded)");
                         }
                         *approved.entry(*h).or_insert(0) += a_msat as u128;
+                        *approvals_n.entry(*h).or_insert(0) += 1;
                         if approved[h] != a_msat as u128 {
                             st.class("reapproval_after_prune");
                         }
@@ -458,10 +461,11 @@ impl Prop for C06 {
                     if chans_with_out >= 2 || parts >= 2 {
                         multi = true;
                     }
-                    if outgoing * 1000 > incoming * 1000 + *amt_msat + max_fee_msat {
+                    let fee_allowance = max_fee_msat * approvals_n.get(h).cloned().unwrap_or(1);
+                    if outgoing * 1000 > incoming * 1000 + *amt_msat + fee_allowance {
                         ctx.report(st, Violation::new(
                             format!("C06:overpaid-in-flight:{}", what),
-                            format!("step {} {:?}: hash {} has {} sat outgoing in flight over {} channel(s) but only {} sat incoming + {} msat approved + {} msat fee allowance", i, op, h, outgoing, chans_with_out, incoming, amt_msat, max_fee_msat),
+                            format!("step {} {:?}: hash {} has {} sat outgoing in flight over {} channel(s) but only {} sat incoming + {} msat approved + {} msat fee allowance", i, op, h, outgoing, chans_with_out, incoming, amt_msat, fee_allowance),
                         ))?;
                         // the state after a real violation is meaningless
                         dead = true;
